@@ -2,6 +2,7 @@ import json
 import logging
 import os
 import time
+import uuid
 from pathlib import PurePath
 from typing import Any, Optional, List, Union, Dict
 from collections import OrderedDict
@@ -160,7 +161,7 @@ class LocalFileStore(Store):
         if not os.path.isdir(internal_dir):
             if create_dirs:
                 _logger.debug(f"Creating dir {internal_dir}")
-                os.makedirs(internal_dir)
+                os.makedirs(internal_dir, exist_ok=True)
             else:
                 raise DDSException(
                     f"Path {internal_dir} is not a directory",
@@ -169,15 +170,14 @@ class LocalFileStore(Store):
         if not os.path.isdir(data_dir):
             if create_dirs:
                 _logger.debug(f"Creating dir {data_dir}")
-                os.makedirs(data_dir)
+                os.makedirs(data_dir, exist_ok=True)
             else:
                 raise DDSException(
                     f"Path {data_dir} is not a directory",
                     DDSErrorCode.STORE_PATH_NOT_FOUND,
                 )
         p_blobs = os.path.join(self._root, "blobs")
-        if not os.path.exists(p_blobs):
-            os.makedirs(p_blobs)
+        os.makedirs(p_blobs, exist_ok=True)
 
     def __repr__(self):
         return f"LocalFileStore(internal_dir={self._root} data_dir={self._data_root})"
@@ -203,15 +203,21 @@ class LocalFileStore(Store):
             STU.from_type(type(blob)), codec
         )
         p = os.path.join(self._root, "blobs", key)
+        # The blob is written under a process-unique temporary name in the same directory and then
+        # renamed: no reader (or later process, after a crash) observes a partially written blob.
+        tmp_p = _tmp_name(p)
         if isinstance(protocol, CodecProtocol):
-            protocol.serialize_into(blob, GenericLocation(p))
+            protocol.serialize_into(blob, GenericLocation(tmp_p))
         elif isinstance(protocol, FileCodecProtocol):
-            # This is the local file system, we can directly copy the file to its final destination
-            protocol.serialize_into(blob, PurePath(p))
+            # This is the local file system, we can directly write the file next to its final destination
+            protocol.serialize_into(blob, PurePath(tmp_p))
         else:
             raise DDSException(f"Wrong protocol type: {type(protocol)} {protocol}")
+        os.replace(tmp_p, p)
+        # The metadata is the commit marker of the blob: it is published last, atomically.
         meta_p = os.path.join(self._root, "blobs", key + ".meta")
-        with open(meta_p, "wb") as f:
+        tmp_meta_p = _tmp_name(meta_p)
+        with open(tmp_meta_p, "wb") as f:
             f.write(
                 json.dumps(
                     {
@@ -220,27 +226,29 @@ class LocalFileStore(Store):
                     }
                 ).encode("utf-8")
             )
+        os.replace(tmp_meta_p, meta_p)
         _logger.debug(f"Committed new blob in {key}")
 
     def has_blob(self, key: PyHash) -> bool:
         p = os.path.join(self._root, "blobs", key)
-        return os.path.exists(p)
+        meta_p = os.path.join(self._root, "blobs", key + ".meta")
+        # The metadata is written after the blob: a blob without metadata is not committed.
+        return os.path.exists(meta_p) and os.path.exists(p)
 
     def sync_paths(self, paths: "OrderedDict[DDSPath, PyHash]") -> None:
         for (path, key) in paths.items():
             loc = self._path_location(path)
             loc_dir = os.path.dirname(loc)
-            if not os.path.exists(loc_dir):
-                _logger.debug(f"Creating dir {loc_dir}")
-                os.makedirs(loc_dir)
+            os.makedirs(loc_dir, exist_ok=True)
             loc_blob = os.path.join(self._root, "blobs", key)
             if os.path.exists(loc) and os.path.realpath(loc) == loc_blob:
                 _logger.debug(f"Link {loc} up to date")
             else:
-                if os.path.exists(loc):
-                    os.remove(loc)
                 _logger.info(f"Link {loc} -> {loc_blob}")
-                os.symlink(loc_blob, loc)
+                # Atomic replacement: the path always resolves to its previous or to its new blob.
+                tmp_loc = _tmp_name(loc)
+                os.symlink(loc_blob, tmp_loc)
+                os.replace(tmp_loc, loc)
 
     def fetch_paths(self, paths: List[DDSPath]) -> "OrderedDict[DDSPath, PyHash]":
         res = OrderedDict()
@@ -279,6 +287,11 @@ class LocalFileStore(Store):
                 DDSErrorCode.STORE_PATH_NOT_SUPPORTED,
             )
         return os.path.join(self._data_root, *segments)
+
+
+def _tmp_name(p: str) -> str:
+    """A process-unique temporary name in the same directory as p (so that os.replace is atomic)."""
+    return f"{p}.tmp-{os.getpid()}-{uuid.uuid4().hex}"
 
 
 def current_timestamp() -> int:
